@@ -85,7 +85,7 @@ SPECS['C02'] = {
     'technique': 'bounded exhaustive enumeration (all 255 plaintext lengths x keys x contents x interfaces, every 2-cut of short messages, complete 1-deviation neighbourhood of DER ciphertexts, C1 substitution set, all ordered key pairs for ECDH) on the real code; reference model = OpenSSL BN/EC equations + OpenSSL EVP SM2',
     'claim': 'For the key set D and scripted nonces every encryption interface produces exactly the GB/T 32918.4 ciphertext of the nonce drawn for every plaintext length 1..255, it decrypts through every interface and under OpenSSL (and vice versa); every bit flip, truncation, extension, non-canonical form and C1 substitution of a valid ciphertext is accepted iff the reference accepts; ECDH equals d_A*d_B*G for all ordered key pairs and refuses invalid peer shares.',
     'trusted': 'OpenSSL BN/EC/SM3/X9.63-KDF and EVP SM2; harness strict-DER reader/writer (der.h); scripted entropy shim',
-    'rule': 'roundtrip: 5 keys x lengths 0..256 x 3 contents x {sm2_encrypt, sm2_do_encrypt, do_decrypt, sm2_decrypt, streaming decrypt, streaming encrypt in every 2-cut for len<=40, fixlen x3, OpenSSL interop both ways}; malformed: per (key,length in {1,16,255}) every bit flip, every prefix, one-byte extensions, 7 C1 substitutions, 10 non-canonical forms, 4 wrong keys, C3 with a zero first / last octet (nonce search) offered with that octet cut / a zero added, the maximum-size ciphertext (366 bytes, nonce search) with 1..100 trailing bytes; ecdh: 5x5 ordered pairs x {do_ecdh, sm2_ecdh uncompressed/compressed, symmetry}, 8 invalid peer shares. distinct = parameter tuple / offered byte string.',
+    'rule': 'roundtrip: 5 keys x lengths 0..256 x 3 contents x {sm2_encrypt, sm2_do_encrypt, do_decrypt, sm2_decrypt, streaming decrypt, streaming encrypt in every 2-cut for len<=40, fixlen x3, OpenSSL interop both ways}; malformed: per (key,length in {1,16,255}) every bit flip, every prefix, one-byte extensions, 7 C1 substitutions, 10 non-canonical forms, 4 wrong keys, C3 with a zero first / last octet (nonce search) offered with that octet cut / a zero added, the maximum-size ciphertext (366 bytes, nonce search) with 1..100 trailing bytes; ecdh: 5x5 ordered pairs x {do_ecdh, sm2_ecdh uncompressed/compressed, symmetry}, 8 invalid peer shares. distinct = parameter tuple / offered byte string. C1 with a small ordinate and its y + p alias.',
     'bound': {'quick': 'neighbourhoods for key typical (3 lengths) and d=1 (1 length)', 'thorough': 'all keys x 3 lengths'},
     'assumptions': ['keys/nonces/contents outside the sets not covered; the KDF-all-zero retry cannot be forced'],
     'quick': [J('c02', 'fast', srcs=SREF), J('c02', 'asan', srcs=SREF, deadline=110)],
@@ -124,7 +124,7 @@ SPECS['C07'] = {
     'technique': 'exhaustive enumeration of all <=1 (quick) / <=2 (thorough) deviations from the canonical valid chain of each length 1..5, role and form, verified by the real x509_certs_verify(_tlcp); three-valued executable reference predicate',
     'claim': 'For every chain in the <=k-deviation neighbourhood of the toolkit-shaped valid chains (1..5 certificates, server/client, TLS and TLCP two-leaf form): the library accepts only if the reference predicate does not say must-reject (validity now, issuer/subject linkage, signatures, anchor in store, every issuer a CA with keyCertSign, pathLen and depth respected, end-entity usages fit the role, no unknown critical extension), and accepts every toolkit-shaped chain the predicate marks must-accept.',
     'trusted': 'the reference predicate in harness/c07.c (three-valued: stricter library behaviour that the property does not forbid is "unspecified"); certificates are issued with the library\'s own x509_cert_sign_to_der; clock owned by the shim',
-    'rule': 'per (form in {tls,tlcp}) x (role in {server,client}) x (L in 1..5): menu of 26 per-certificate deviations (basicConstraints absent/FALSE/TRUE, pathLen absent/0/1/exact/one-less, keyUsage absent/no-keyCertSign/DS-only/KE-only/non-critical/certSign-on-leaf, EKU server/client/any, expired/not-yet/10-year span, signature bit flip/other key, issuer mismatch, unknown extension non-critical/critical, v1) at every position incl. anchor (and TLCP encryption leaf) + store {unrelated, same name other key, empty} + depth 0..5; quick: single deviations; thorough: all pairs. distinct = the chain specification; non-trivial = reference verdict is definite (must-accept or must-reject).',
+    'rule': 'per (form in {tls,tlcp}) x (role in {server,client}) x (L in 1..5): menu of 26 per-certificate deviations (basicConstraints absent/FALSE/TRUE, pathLen absent/0/1/exact/one-less, keyUsage absent/no-keyCertSign/DS-only/KE-only/non-critical/certSign-on-leaf, EKU server/client/any, expired/not-yet/10-year span, signature bit flip/other key, issuer mismatch, unknown extension non-critical/critical, v1) at every position incl. anchor (and TLCP encryption leaf) + store {unrelated, same name other key, empty} + depth 0..5; quick: single deviations; thorough: all pairs. distinct = the chain specification; non-trivial = reference verdict is definite (must-accept or must-reject). Validity windows 2^31 / 2^32 seconds ahead; subjects with a malformed non-final RDN.',
     'bound': {'quick': '<=1 deviation', 'thorough': '<=2 deviations (~10^5 chains)'},
     'assumptions': ['name constraints, policies, CRL/OCSP status are outside the property', 'more than 2 simultaneous defects not covered'],
     'quick': [J('c07', 'fast', srcs=['harness/venv.c']), J('c07', 'asan', srcs=['harness/venv.c'], deadline=110)],
@@ -150,7 +150,7 @@ SPECS['C16'] = {
     'technique': 'exhaustive enumeration of signer/recipient counts 1..4, key-object provenance, content lengths and every single-bit modification inside the fields the property names (located with the harness DER walker), on the real CMS code',
     'claim': 'For every signer set and recipient set of 1..4 parties, key objects obtained by generation / DER import / PEM import and the content-length set, signed, enveloped, encrypted and signed-and-enveloped messages round-trip; every single-bit change inside content, signature value, encrypted key, IV or ciphertext of a short message, a non-recipient key, a key/certificate mismatch and a zero-signer SignedData are refused.',
     'trusted': 'harness DER walker locates the named fields; bit flips outside those fields (e.g. inside embedded certificates, which SignedData does not sign) are unspecified and not judged',
-    'rule': 'sign-verify: signers 1..4 x 3 key origins x 7 content lengths {0,1,15,16,17,4096,65536}; all bit flips inside content/signature for content<=17; swapped signer keys; zero SignerInfos. envelop: recipients 1..4 x 7 lengths, each of the 4 parties x 3 key origins tries to open, key/cert mismatch, all bit flips in own encrypted key / IV / ciphertext. encrypt/decrypt with wrong key and IV/ciphertext flips; set_data; sign-and-envelop signers x recipients x lengths, all single-bit modifications of short signed-and-enveloped messages (accepted => signed type and content returned); 5 look-alike recipient pairs x both orders. distinct = (parties, origin, length, flipped bit).',
+    'rule': 'sign-verify: signers 1..4 x 3 key origins x 7 content lengths {0,1,15,16,17,4096,65536}; all bit flips inside content/signature for content<=17; swapped signer keys; zero SignerInfos. envelop: recipients 1..4 x 7 lengths, each of the 4 parties x 3 key origins tries to open, key/cert mismatch, all bit flips in own encrypted key / IV / ciphertext. encrypt/decrypt with wrong key and IV/ciphertext flips; set_data; sign-and-envelop signers x recipients x lengths, all single-bit modifications of short signed-and-enveloped messages (accepted => signed type and content returned); 5 look-alike recipient pairs x both orders. distinct = (parties, origin, length, flipped bit). Blocks shared-info, sign-with-crls, signer-attributes (SignedData assembled with the library writers; attribute fields exchanged / replaced with the signature kept).',
     'bound': {'quick': 'large contents only for <=2 parties; sign+envelop for signers+recipients<=4', 'thorough': 'full cross product'},
     'assumptions': ['more than 4 parties and 2-bit changes are not covered'],
     'quick': [J('c16', 'fast', srcs=['harness/venv.c']), J('c16', 'asan', srcs=['harness/venv.c'], deadline=110)],
@@ -271,7 +271,7 @@ SPECS['C19'] = {
     'claim': 'In the default build, for 6 handshake configurations x {honest, 6 credential defects per role, bit flip / drop / duplicate of each of the first 8 records per direction, failure of each of the first 72 entropy draws per role} and for the SM2 / PKCS#8 / CMS / SM9 secret-handling sequences (success, tampered input, wrong key, wrong password, entropy failure), no window of 8 bytes of any private key, password, plaintext, pre-master / master secret, key block, TLS 1.3 secret, traffic key or IV appears on standard output or standard error, raw or as hex.',
     'trusted': 'secrets of the handshakes are captured at derivation by link-time wrapping of tls_prf / hkdf_extract / hkdf_expand; only fd 1 and fd 2 are observed (the library writes diagnostics nowhere else)',
     'require_counters': {'quick': {'tls12_runs_with_a_leading_zero_secret': 3, 'tls13_runs_with_a_leading_zero_secret': 2, 'tlcp_runs_with_a_leading_zero_secret': 3}},
-    'rule': 'per execution: secrets = private scalars, application plaintext, PRF/HKDF inputs and outputs (Finished verify_data excluded), passwords; search = raw 8-byte windows and 16-hex-digit windows over the separator-stripped, case-folded capture. executions: handshakes (honest, 6 credential defects, 48 record faults, every failing entropy draw, 81 post-handshake operation pairs per protocol, the honest handshake under 1024 (thorough 4096) further entropy scripts so that value-dependent diagnostics show: runs whose key-exchange secret has a leading / trailing zero octet are counted and a minimum is required), 7 API scenarios, key-file import failure paths (5 container kinds x {consistent, spliced public point} x every 1-byte substitution (3 values) and truncation). distinct = (configuration, variant).',
+    'rule': 'per execution: secrets = private scalars, application plaintext, PRF/HKDF inputs and outputs (Finished verify_data excluded), passwords; search = raw 8-byte windows and 16-hex-digit windows over the separator-stripped, case-folded capture. executions: handshakes (honest, 6 credential defects, 48 record faults, every failing entropy draw, 81 post-handshake operation pairs per protocol, the honest handshake under 1024 (thorough 4096) further entropy scripts so that value-dependent diagnostics show: runs whose key-exchange secret has a leading / trailing zero octet are counted and a minimum is required), 7 API scenarios, key-file import failure paths (5 container kinds x {consistent, spliced public point} x every 1-byte substitution (3 values) and truncation). distinct = (configuration, variant). Key-holding-peer faults also for TLCP / TLS 1.2 (wrap of tls_record_encrypt); every private key handed to an operation is a registered secret.',
     'bound': {'quick': 'whole menu', 'thorough': 'whole menu'},
     'assumptions': ['explicit print / export calls are not invoked', 'secrets shorter than 8 bytes are not searched'],
     'quick': [J('c19', 'fast', srcs=TLSSRC, libs=WRAPS)],
